@@ -46,4 +46,9 @@ CHECKS = {
   "text": "Generated search (about 6500 cases quick, 2.5e5 thorough) with edge classes (|v| up to 1-1e-6, epsilon branch, massless finals, decaying second daughter). Exploration level.",
   "note": "Trusted: numpy boosts/masses/helicity cosine in vlib/kin.py. Tolerances scale with gamma^2; phi compared as exp(i phi); exactly collinear Dalitz points (region boundary) not asserted.",
  },
+ "C18": {
+  "technique": "property-based testing: Hypothesis recursive strategy for nested dict/list/tuple data (incl. empty containers, >1000 batches) with split/merge, batch_call, mask and index oracles in numpy; generated particle-split multi-file inputs (txt/npy/npz, permuted orders) and ConfigLoader dat_order / savetxt / lazy_call / lazy_file round-trips",
+  "text": "Generated search (about 2000 cases quick, 1.2e5 thorough). Exploration level; the size class that triggers the former 1000-batch truncation is generated deliberately.",
+  "note": "Trusted: numpy indexing/concatenation as reference. Domain: n>=1 and at least one array leaf; tf.data-backed lazy path fed with dict-only inputs as the library does.",
+ },
 }
